@@ -353,11 +353,6 @@ H(prop="C06", name="c06_replace_all_disjoint_n4", crate="core-h", module="c01_se
   shape="ANY(4)", bounds="every tree <= 4 nodes, symbolic verdicts and match lengths; unwind 10", timeout=1800, mem_gb=20)
 
 # ---------------------------------------------------------------- re-added small harnesses
-for n, tier in ((4, "quick"), (5, "thorough")):
-    H(prop="C11", name=f"c11_string_case_split_{n}ch", crate="config-h", module="small_kernels", fq=f"small_kernels::proofs_case::c11_string_case_split_{n}ch", tier=tier,
-      decides="string_case::split (word splitter of `convert`) never panics / slices off a char boundary; pieces are in-order non-overlapping sub-slices",
-      functions=["ast_grep_config::transform::string_case::split", "ast_grep_config::transform::string_case::Delimiter::delimit", "ast_grep_config::transform::string_case::Delimiter::conclude"],
-      assumes=[ST_UTF8], shape="STR", bounds=f"all texts of <= {n} chars over {{a, A, _, E-acute(2 bytes, upper case)}}; unwind {2*n}", timeout=1800 if n == 4 else 5400)
 H(prop="C11", name="c11_replace_invalid_regex_rejected", crate="config-h", module="c12_fix_forms", stubbing=True, timeout=1200,
   decides="Transformation::parse rejects a `replace` transformation whose regex does not compile (so no scan-time unwrap panic is reachable for accepted configs)",
   functions=["ast_grep_config::transform::transformation::Transformation::parse", "ast_grep_config::transform::transformation::Replace::compute"],
